@@ -63,6 +63,19 @@ func expect(op int, a, b bool) bool {
 // checkPair runs all five operations on (pd,qd) and compares the filled regions at probe
 // points that are farther than delta from both input boundaries. curveN > 1 for curved inputs.
 func checkPair(r *fw.R, pd, qd []float64, delta, eta float64, curveN int, viaPaths bool) {
+	mode := 0
+	if viaPaths {
+		mode = 1
+	}
+	checkPairMode(r, pd, qd, delta, eta, curveN, mode)
+}
+
+// entry points: 0 = Path.op(Path); 1 = Paths of single contours (Split) on both sides;
+// 2 = Paths{p}.op(Paths{q}) with the whole multi-contour paths as single elements;
+// 3 = Paths{p}.op(q.Split()); 4 = p.Split().op(Paths{q})
+var entryNames = []string{"Path.op(Path)", "p.Split().op(q.Split())", "Paths{p}.op(Paths{q})", "Paths{p}.op(q.Split())", "p.Split().op(Paths{q})"}
+
+func checkPairMode(r *fw.R, pd, qd []float64, delta, eta float64, curveN int, mode int) {
 	P := oracle.DenseData(pd, curveN)
 	Q := oracle.DenseData(qd, curveN)
 	both := append(append([]oracle.Polyline{}, P...), Q...)
@@ -106,9 +119,16 @@ func checkPair(r *fw.R, pd, qd []float64, delta, eta float64, curveN int, viaPat
 	r.Count("probes_skipped_near_boundary", int64(len(samples)-len(probes)))
 	for op := 0; op < 5; op++ {
 		var res *canvas.Path
-		if viaPaths {
+		switch mode {
+		case 1:
 			res = applyPaths(op, cv.Path(pd).Split(), cv.Path(qd).Split())
-		} else {
+		case 2:
+			res = applyPaths(op, canvas.Paths{cv.Path(pd)}, canvas.Paths{cv.Path(qd)})
+		case 3:
+			res = applyPaths(op, canvas.Paths{cv.Path(pd)}, cv.Path(qd).Split())
+		case 4:
+			res = applyPaths(op, cv.Path(pd).Split(), canvas.Paths{cv.Path(qd)})
+		default:
 			res = apply(op, cv.Path(pd), cv.Path(qd))
 		}
 		sps, err := oracle.Decode(res.Data())
@@ -381,6 +401,43 @@ func curvedFamily() fw.Family {
 	}
 }
 
+// entryFamily: two-contour operands mixing flat and curved contours (curve in the first, in the
+// second, in both contours; a hole) through every entry point: Path.*, Paths of single contours,
+// Paths whose elements hold several contours.
+func entryFamily() fw.Family {
+	all := c02.CurvedShapes()
+	// circle r2 at (2,2), clockwise circle r1 at (2,2) (a hole), rotated ellipse at (3,2), rounded
+	// rectangle around (4,3), cubic blob, flat rectangles (ccw, cw)
+	pick := []int{0, 1, 8, 14, 17, 18, 19}
+	var sh [][]float64
+	for _, k := range pick {
+		sh = append(sh, all[k])
+	}
+	var two [][]float64
+	for a := range sh {
+		for b := range sh {
+			if a != b {
+				two = append(two, append(append([]float64{}, sh[a]...), sh[b]...))
+			}
+		}
+	}
+	n := int64(len(two))
+	modes := int64(len(entryNames))
+	return fw.Family{
+		Name: fmt.Sprintf("entry points: %d two-contour operands mixing flat and curved contours, P x Q x {Path.op, Paths of single contours, Paths with multi-contour elements on either side}", n), N: n * n * modes,
+		Check: func(i int64, r *fw.R) {
+			m := int(i % modes)
+			k := i / modes
+			r.Outcome("entry:" + entryNames[m])
+			checkPairMode(r, two[k/n], two[k%n], 3*canvas.Tolerance+1e-6, 1e-3, 256, m)
+		},
+		Desc: func(i int64) string {
+			k := i / modes
+			return fmt.Sprintf("P=%s Q=%s via %s", oracle.Fmt(two[k/n]), oracle.Fmt(two[k%n]), entryNames[i%modes])
+		},
+	}
+}
+
 func families(tier string) []fw.Family {
 	L3 := oracle.Lattice(3)
 	tri3 := single(oracle.Contours(L3, 3))
@@ -436,7 +493,7 @@ func families(tier string) []fw.Family {
 	fewTris := tri3r[:24]
 	fs0 := hardCasesFamily()
 	var fs []fw.Family
-	fs = append(fs, fs0, curvedFamily())
+	fs = append(fs, fs0, curvedFamily(), entryFamily())
 	fs = append(fs,
 		pairFamily("tri(L3)/rot (first 24) x shapes with holes lying 10 to the right", fewTris, apart, 1, oracle.Pt{}, 1e-8, 1e-6, false),
 		pairFamily("shapes with holes lying 10 to the right x tri(L3)/rot (first 24)", apart, fewTris, 1, oracle.Pt{}, 1e-8, 1e-6, false),
@@ -483,7 +540,7 @@ func Prop() *fw.Property {
 			"filled(result,NonZero) compared with the Boolean combination at probe points on both sides of every piece of the arrangement of the input edges plus an offset grid, skipping probes within delta of an input boundary; " +
 			"non-trivial = bounding boxes overlap, both operands have non-zero area, and probes exist inside and outside",
 		Assumptions: []string{
-			"coordinates restricted to the stated integer lattices (scaled/translated); curved operands and >8 segments per operand are outside this bound",
+			"coordinates restricted to the stated integer lattices (scaled/translated); curved operands only from the 20-shape curved menu (pairs of single shapes, and 42 two-contour mixes of flat and curved contours through the five entry points Path.op, Paths of single contours, Paths with multi-contour elements on either or both sides), probes within 3*Tolerance of a curve undecided",
 			"delta=1e-6 at snap grid 1e-8; delta=2*eps on the coarse-grid configurations",
 			"commutativity, P op P and lattice-symmetry equivariance follow because the enumeration is closed under swapping operands and under the lattice symmetries and each case is compared with an absolute oracle",
 		},
